@@ -7,5 +7,5 @@ Separate Extraction InternOps.x_new InternOps.x_add_namespace InternOps.x_add_pr
   Interning.namespace_for_name Interning.prefix_str Interning.local_name_str Interning.namespace_str Interning.name_ns_str
   Manip.mrun Manip.mstep Hist.hrun Hist.hstep Hist.trun Hist.tstep Store.stamp_of Zipper.locate Access.store_cursors
   XmlSer.serialize_write XmlSer.gen_outputs XmlSer.tokens XmlSer.pretty_tokens XmlSer.serialize_pretty_write
-  Builder.parse_document Builder.parse_fragment Builder.span_get Builder.xml_id_lookup Builder.perror_span
+  Builder.parse_document_at Builder.parse_document Builder.parse_fragment Builder.span_get Builder.xml_id_lookup Builder.perror_span
   Fixed.xotify_document Fixed.xotify_element.
